@@ -228,6 +228,19 @@ theorem applyBlockTxs_append {p : Params} {h : Nat} :
       rw [applyBlockTxs_append xs hs]
       simp
 
+theorem applyBlockTxs_append_none {p : Params} {h : Nat} :
+    ∀ (pre : List Tx) {suf : List Tx} {first : Bool} {v : View},
+      applyBlockTxs p h first pre v = none → applyBlockTxs p h first (pre ++ suf) v = none
+  | [], _, _, _, hn => by cases hn
+  | x :: xs, suf, first, v, hn => by
+    rw [applyBlockTxs_cons] at hn
+    rw [List.cons_append, applyBlockTxs_cons]
+    cases hsp : applySpend p h x.ins v with
+    | none => rfl
+    | some v1 =>
+      rw [hsp] at hn
+      exact applyBlockTxs_append_none xs hn
+
 /-- a transaction with an input that is not spendable at its turn makes the block fail -/
 theorem applyBlockTxs_bad_input {p : Params} {h : Nat} {pre suf : List Tx} {t : Tx} {first : Bool}
     {v vm vi : View} {ipre isuf : List Nat} {o : Nat}
